@@ -114,11 +114,14 @@ def affectedSet (ck : Checker Mod Content Sig Err) (S : Sources Mod Content) (di
 
 /-- `ServerState` (server_state.rs:16-25).  `string_sources` and `parsed_modules` always have the
 same keys and `parsed_modules[m] = parse(string_sources[m], m)`, so they are one map here;
-`checked_modules`, the heap and the GC are not part of this property's observations. -/
+of `checked_modules` only the key set is modelled (`checked`); the heap and the GC are not part of
+this property. -/
 structure State (Mod Content Sig Err : Type) where
   sources : Sources Mod Content
   globalCx : List (Mod × Sig)
   errors : List (Mod × List Err)
+  /-- keys of `checked_modules` (read through membership) -/
+  checked : List Mod
 
 /-- `ErrorSet::group_errors()[k]` -/
 def groupFor (es : List (Mod × Err)) (k : Mod) : List Err :=
@@ -156,7 +159,9 @@ the modules that own a produced error plus the whole recheck set are overwritten
 def recheck (ck : Checker Mod Content Sig Err) (s : State Mod Content Sig Err)
     (pending : List (Mod × Err)) (R : List Mod) : State Mod Content Sig Err :=
   let produced := pending ++ (retained ck s R ++ checkAll ck s.sources s.globalCx R)
-  { s with errors := overwrite s.errors produced (produced.map (·.1) ++ R) }
+  { s with errors := overwrite s.errors produced (produced.map (·.1) ++ R),
+           -- `self.checked_modules.insert(mod_ref, checked)` for every rechecked module that is a source
+           checked := R.filter (fun m => (lookup s.sources m).isSome) ++ s.checked }
 
 /-- `updates.into_iter().filter(|(m, _)| *m != ROOT).collect::<HashMap<_, _>>()`: ROOT is not a
 file, the last text of a module in the batch wins. -/
@@ -167,7 +172,7 @@ def writeBatch (root : Mod) (ups : List (Mod × Content)) : List (Mod × Content
 def updateOne (ck : Checker Mod Content Sig Err) (s : State Mod Content Sig Err)
     (p : Mod × Content) : State Mod Content Sig Err :=
   { errors := erase s.errors p.1, globalCx := insert s.globalCx p.1 (ck.sig p.1 p.2),
-    sources := insert s.sources p.1 p.2 }
+    sources := insert s.sources p.1 p.2, checked := s.checked }
 
 /-- `ServerState::update`: the recheck set comes from the **rebuilt** dependency graph. -/
 def update (ck : Checker Mod Content Sig Err) (s : State Mod Content Sig Err)
@@ -184,11 +189,13 @@ def renameOne (ck : Checker Mod Content Sig Err)
     State Mod Content Sig Err × List (Mod × List Err) :=
   let s := acc.1
   match lookup s.sources p.1 with
-  | none => acc
+  | none => ({ s with checked := s.checked.filter (fun m => m ≠ p.1) }, acc.2)
   | some c =>
     ({ sources := insert (erase s.sources p.1) p.2 c,
        globalCx := insert (erase s.globalCx p.1) p.2 (ck.sig p.2 c),
-       errors := erase (erase s.errors p.1) p.2 },
+       errors := erase (erase s.errors p.1) p.2,
+       -- `self.checked_modules.remove(&old_mod_ref)` (executed for every pair)
+       checked := s.checked.filter (fun m => m ≠ p.1) },
       insert (erase acc.2 p.1) p.2 (ck.parseErrs c))
 
 /-- `renames` without the pairs that mention ROOT. -/
@@ -206,7 +213,8 @@ def rename (ck : Checker Mod Content Sig Err) (s : State Mod Content Sig Err)
 
 /-- Loop body of `remove`. -/
 def removeOne (s : State Mod Content Sig Err) (m : Mod) : State Mod Content Sig Err :=
-  { sources := erase s.sources m, globalCx := erase s.globalCx m, errors := erase s.errors m }
+  { sources := erase s.sources m, globalCx := erase s.globalCx m, errors := erase s.errors m,
+    checked := s.checked.filter (fun k => k ≠ m) }
 
 /-- `ServerState::remove`: recheck set from the **old** graph; ROOT ignored. -/
 def remove (ck : Checker Mod Content Sig Err) (s : State Mod Content Sig Err) (ms : List Mod) :
@@ -248,7 +256,8 @@ def fresh (ck : Checker Mod Content Sig Err) (S : Sources Mod Content) :
     State Mod Content Sig Err :=
   let produced := freshProduced ck S
   { sources := S, globalCx := freshCx ck S,
-    errors := overwrite [] produced (produced.map (·.1)) }
+    errors := overwrite [] produced (produced.map (·.1)),
+    checked := keys S }
 
 /-! ## What "the current set of file contents" is, independently of `State` -/
 
@@ -267,6 +276,53 @@ def applyOp (root : Mod) (S : Sources Mod Content) : Op Mod Content → Sources 
 def applyOps (root : Mod) (ops : List (Op Mod Content)) (S : Sources Mod Content) :
     Sources Mod Content :=
   ops.foldl (applyOp root) S
+
+/-! ## The LSP glue (`crates/samlang-cli/src/main.rs`, `mod lsp`)
+
+`did_change` (415-422), `did_create_files` (365-382), `did_rename_files` (384-400),
+`did_delete_files` (402-413) translate notifications into `update` / `rename_module` / `remove`.
+A path is turned into a module reference by `convert_url_to_module_reference_helper` (its parts are
+never empty, so it is never ROOT); `did_delete_files` uses the *read-only* lookup (245-252), which
+answers ROOT for a file whose module reference was never allocated. -/
+
+inductive Event (Mod Content : Type) where
+  /-- `did_change`: full text of the last content change; the module is allocated if absent. -/
+  | didChange (m : Mod) (text : Content)
+  /-- `did_create_files`: every created file with the text read from disk (`none`: unreadable,
+  dropped by the `filter_map`). -/
+  | didCreate (files : List (Mod × Option Content))
+  /-- `did_rename_files`: (old, new) pairs, both allocated if absent. -/
+  | didRename (pairs : List (Mod × Mod))
+  /-- `did_delete_files`: `none` = a file the server has never heard of. -/
+  | didDelete (files : List (Option Mod))
+
+def readable (files : List (Mod × Option Content)) : List (Mod × Content) :=
+  files.filterMap (fun p => p.2.map (fun c => (p.1, c)))
+
+/-- What the handlers call on `ServerState`. -/
+def glue (root : Mod) : Event Mod Content → Op Mod Content
+  | .didChange m t => .update [(m, t)]
+  | .didCreate files => .update (readable files)
+  | .didRename pairs => .rename pairs
+  | .didDelete files => .remove (files.map (fun o => o.getD root))
+
+/-- File-system view of a notification (the editor buffer / the disk is the truth). -/
+def applyEvent (root : Mod) (S : Sources Mod Content) : Event Mod Content → Sources Mod Content
+  | .didChange m t => insert S m t
+  | .didCreate files => (writeBatch root (readable files)).foldl (fun S p => insert S p.1 p.2) S
+  | .didRename pairs => pairs.foldl applyRename S
+  | .didDelete files => (files.filterMap id).foldl erase S
+
+def applyEvents (root : Mod) (evs : List (Event Mod Content)) (S : Sources Mod Content) :
+    Sources Mod Content :=
+  evs.foldl (applyEvent root) S
+
+/-- No path maps to ROOT (`file_path_to_module_reference_parts` never yields an empty vector). -/
+def EventNoRoot (root : Mod) : Event Mod Content → Prop
+  | .didChange m _ => m ≠ root
+  | .didCreate files => ∀ p ∈ files, p.1 ≠ root
+  | .didRename pairs => ∀ p ∈ pairs, p.1 ≠ root ∧ p.2 ≠ root
+  | .didDelete files => ∀ m, some m ∈ files → m ≠ root
 
 end Model
 
